@@ -5,6 +5,7 @@ import os
 
 VERIF = os.path.dirname(os.path.dirname(os.path.abspath(__file__)))
 
+PURE = 'TLC trace validation (Trace_Pure) of recorded calls of the real functions against the specification operators'
 TR = 'TLC exhaustive model check of spec/Transport.tla (calls x guard x sockets x clock x network) incl. expected-to-fail design switches; TLC -simulate behaviours exported as scripts and replayed on real loopback sockets (Rig L); TLC trace validation (Trace_Transport, inferred internal steps, depth-first queue) of the recorded events'
 
 CHECKS = {
@@ -81,6 +82,22 @@ CHECKS = {
         note="Trusted: /proc/self/fd and runtime.NumGoroutine; tick timing with half a tick of slack on time-outs; re-run rule.",
         design="4/C09",
     ),
+    "C10": dict(
+        category="model_checking",
+        technique="TLC model check of spec/Listener.tla (invariants + liveness under weak fairness, XF_SpawnPerEvent refuted); TLC trace validation (Trace_Listener, inferred internal steps, per-sender FIFO network) of real Listen() scenarios on loopback; TLC trace validation (Trace_Api EventDecoded / Stable) of every delivered status",
+        text="EventsInOrderOnce, ErrorsInOrderOnce, ConnectedOnce, Complete, Rebindable and Terminates hold for 2 senders x 4 datagrams x quit at any point. Real listener runs (1-3 senders, 8 datagram classes, start/stop cycles with an immediate re-bind) must be behaviours of that specification; "
+             "each delivered status must equal the specification's decoding of its datagram at delivery and again after the run, also when the handler is fed from one reused, overwritten buffer.",
+        note="Trusted: TLC; flow control in the harness so that the kernel cannot drop; errors carry no identity (matched to 'some bad datagram'). Scripts are seeded by the harness.",
+        design="4/C10",
+    ),
+    "C11": dict(
+        category="model_checking",
+        technique="TLC model check of spec/Discovery.tla (ResultSound, ResultComplete, NoRace; XF_DiscoveryUnsync refuted); TLC trace validation (Trace_Api: Api!DiscoveryOK, a recursive matcher of results against the delivered datagram sequence) on the scripted transport and against the real Broadcast()",
+        text="Two-sided formulation: complete for datagrams inside the window, sound for everything returned, order preserved, duplicates kept, malformed datagrams contribute nothing and never fail the call; address completed with the broadcast port, name from the configured controller. "
+             "Every sequence of <=3/<=4 datagrams over 7 classes through GetDevices on the scripted transport, plus random multisets through the real Broadcast() on loopback.",
+        note="Trusted: TLC; in Rig L the sent list is taken as the delivered list (sequential sends on loopback).",
+        design="4/C11",
+    ),
     "C12": dict(
         category="model_checking",
         technique="TLC model check of the BCD laws (MC_Bcd) + TLC trace validation (Trace_C12) of recorded bcd.Encode/Decode calls",
@@ -89,6 +106,48 @@ CHECKS = {
              "including both round trips. Exhaustive within the stated bounds, position independence sampled with random long inputs.",
         note="Trusted: TLC's evaluation of spec/Bcd.tla; the harness logs inputs/outputs as byte arrays without interpretation; the dec3 summary (accept set + digit echo flag) is computed by the harness.",
         design="4/C12",
+    ),
+    "C13": dict(
+        category="model_checking",
+        technique=PURE + " (CivilValue / CivilWire) in one child process per time zone; midnight-gap days found per zone from the tz database by the harness",
+        text="The specification owns the calendar and the wire form: every date / date-time that exists in the process zone must be reported as its civil value and encode to its own digits. All days whose local midnight is skipped 1900-2100 (found per zone), their neighbours, skipped days (exempt), boundaries and random days through ToDate, ParseDate, wire and JSON decode, String, SystemDate, date-time decode and the status recombination; 25 zones quick, every zone thorough.",
+        note="Trusted: existence of a civil time in a zone is computed by Go's time package / system tz database (TLA+ has no tz database); TLC.",
+        design="4/C13",
+    ),
+    "C14": dict(
+        category="model_checking",
+        technique=PURE + " (JsonRoundTrip, JsonRoundTripAsMember, TextValue, TextReject; spec/Text.tla character-level grammars, spec/Addr.tla for address JSON)",
+        text="For each public type with a JSON form, generated in-domain values are encoded, decoded into a fresh zero value (nil maps) and as a struct member, and compared semantically by the specification; per type a character-level grammar says which texts denote which value and which must be rejected. Dates and date-times in a child process per zone.",
+        note="Trusted: TLC; semantic projections in the harness (door / weekday / segment look-ups); documented don't-cares.",
+        design="4/C14",
+    ),
+    "C15": dict(
+        category="model_checking",
+        technique=PURE + " (AcceptExact, Reject, FormatRoundTrip, RejectNoQuad; spec/Addr.tla) + TLC check of the grammar's consistency (MC_Addr)",
+        text="Addr!MustAccept / MustReject / don't-care partition texts per role; every string over {1,0,2,5,.,:} up to length 7/9, all ports, single-character mutations of valid addresses and format/parse round trips are judged by TLC for all four roles.",
+        note="Trusted: TLC; texts as code points.",
+        design="4/C15",
+    ),
+    "C16": dict(
+        category="model_checking",
+        technique=PURE + " (rows of Before/After/Equals verdicts recomputed from the lexicographic operators) + TLC check of trichotomy / transitivity / irreflexivity and agreement with the day number on a bounded grid (MC_Order)",
+        text="All 1441^2 HH:mm pairs (thorough; every 5th row quick), adjacent days of four years incl. leap and century years, boundaries, random grids, and date-time vs instant around second boundaries; the segment rule is decided in C07's run.",
+        note="Trusted: TLC; whole-second timestamps logged as two 20-bit halves.",
+        design="4/C16",
+    ),
+    "C17": dict(
+        category="model_checking",
+        technique="TLC model check of spec/Insulation.tla (RoutesBySnapshot, HeldStable; three XF design switches refuted); stateful TLC trace validation (Trace_Insulation: snapshot taken at `construct`, every later call must route by Api!Route(snapshot), every re-check must show the held rendering)",
+        text="Every history of <=3/<=4 actions over {mutate caller data, mutate the DeviceList map, call, scribble transport buffers, mutate a result, re-check, clone} (+ random histories of length 20) replayed on the scripted transport, which hands out slices of one reusable buffer; argument values are re-projected after each call.",
+        note="Trusted: TLC; projections of held values; argument immutability re-projection only for PutCard and ActivateKeypads arguments.",
+        design="4/C17",
+    ),
+    "C18": dict(
+        category="model_checking",
+        technique="TLC trace validation (Trace_Layout: Wire!EncodedOK / round trip / NoAlias / TagsEnforced applied to the layout carried by each event) of struct types generated from the tag grammar with reflect.StructOf",
+        text="The same executable field codec that judges the shipped messages judges generated layouts: every single-field layout (19 Go field types x every fitting offset x top-level/embedded), fixed-value byte tags in four notations at every offset, and 1000/20000 random multi-field layouts packed to the last byte; plus aliasing (input buffer overwritten after decode) and enforcement of function-code / fixed-value tags.",
+        note="Trusted: TLC; layouts are harness-generated (seeded), not exported from TLC.",
+        design="4/C18",
     ),
 }
 
